@@ -55,7 +55,9 @@ def kind_of(ty):
         return "KThreads"
     if ty.startswith("threadsafe_queue<"):
         return "KSubobject"      # has its own synchronisation: accesses are method calls, analysed in its own class
-    if ty in ("bool", "std::string") or ty.startswith("std::queue<"):
+    if ty.startswith("std::queue<"):
+        return "KContainer"
+    if ty in ("bool", "std::string"):
         return "KPlain"
     raise Refuse("data member of unknown type %r" % ty)
 
